@@ -99,7 +99,14 @@ func TestExh_C17(t *testing.T) {
 	for _, k := range badIdxKinds {
 		for _, idx := range badIdxForms[k] {
 			single(Peer{Name: "p", Idx: idx, Mask: 0})
+			if k == "dash-suffix" {
+				single(Peer{Name: "", Idx: idx, Mask: 0})
+			}
 		}
+	}
+	// the separator in the other field, and around an empty index
+	for _, r := range []Reg{{Name: "05-foo", Idx: ""}, {Name: "5-foo", Idx: "0"}, {Name: "-foo", Idx: "05-"}, {Name: "-", Idx: "5"}, {Name: "foo", Idx: "-05"}, {Name: "", Idx: "05"}} {
+		single(Peer{Name: r.Name, Idx: r.Idx})
 	}
 	for bit := uint(0); bit < 32; bit++ {
 		single(Peer{Name: "p", Idx: "10", Mask: int32(uint32(1) << bit)})
